@@ -5,6 +5,7 @@ from __future__ import annotations
 import numpy as np
 
 from .. import ref
+from ..core import call_watchdog
 from ..ref import Graph
 
 LEVEL = "exploration"
@@ -64,8 +65,12 @@ def run(ctx):
             cnt: dict[int, int] = {}
             m = min(BLOCK, total - blk * BLOCK)
             for _ in range(m):
+                cl = None
                 try:
-                    cl = gen(shape).connection_list
+                    with call_watchdog(ctx, 60, f"C19/gen_wilson {R}x{C}"):
+                        cl = gen(shape).connection_list
+                    if cl is None:
+                        break  # watchdog fired: inconclusive, reported by the runner
                 except Exception as e:  # noqa: BLE001
                     ctx.violation(f"C19/gen_wilson-raises/{type(e).__name__}", repr(e)[:300], dict(shape=(R, C), block=blk))
                     break
